@@ -33,70 +33,5 @@ def preflight(tier):
     return r["disagreements"] == 0 and r["cases"] > 1500, r
 
 
-TWO_LEVEL = ("arr_arr_int", "arr_obj_int", "obj_arr_int", "obj_obj_int")
-SPLIT = {"obj_int": ["obj_int#01", "obj_int#2"], "arr_scalar": ["arr_scalar#01", "arr_scalar#2"]}
-
-
 def conditions(tier, seed, active):
-    out = []
-    rng = random.Random(seed)
-    quick = tier == "quick"
-
-    def cond(t, d, kind, pair=None, L=2, N=2, N2=None, tags=None, timeout=300):
-        if tags is None:
-            tags = t.tags_for(kind) if (pair is None and t.group != "T3") else ()
-        cid = "%s/d%d/%s%s" % (t.name, d, kind, ("+" + pair) if pair else "")
-        if (L, N, N2) != (2, 2, None):
-            cid += "[L%d,N%d%s]" % (L, N, ",N2=%d" % N2 if N2 is not None else "")
-        wit = list(tags) if (kind != "rest" and (not quick or rng.random() < 0.15)) else []
-        out.append(dict(id=cid, module=__name__, factory="single",
-                        params=dict(name=t.name, draft=d, kind=kind, pair=pair, L=L, N=N, N2=N2, tags=list(tags)),
-                        timeout=timeout, tags=list(tags), witness=wit, wtimeout=60))
-
-    for t in tp.TEMPLATES:
-        heavy_draft = rng.choice(list(t.drafts))
-        for d in t.drafts:
-            if t.group == "T1":
-                for k in t.kinds:
-                    cond(t, d, k)
-                if tp.rest_type(t.kinds) is not None and (not quick or t.name not in ("enum", "const", "type", "type_list")):
-                    cond(t, d, "rest", tags=())
-            elif t.group == "T2":
-                for k in t.kinds:
-                    for kk in SPLIT.get(k, [k]):
-                        if quick and kk.endswith("#2") and d != heavy_draft:
-                            continue        # the two-entry split of the object/array groups: one (seeded) draft in quick
-                        cond(t, d, kk, timeout=900)
-                if tp.rest_type(t.kinds) is not None and not (quick and t.name == "g_enum_type"):
-                    cond(t, d, "rest", tags=(), timeout=600)
-            elif t.group == "T3":
-                k = t.kinds[0]
-                if quick:
-                    if rng.random() < 0.12:
-                        if k in TWO_LEVEL:
-                            cond(t, d, k, L=1, N=2, N2=1, timeout=600)
-                        elif k == "obj_int":
-                            cond(t, d, "obj_int#01", timeout=600)
-                        else:
-                            cond(t, d, k, timeout=600)
-                else:
-                    if k in TWO_LEVEL:
-                        cond(t, d, k, L=2, N=2, N2=1, timeout=2400)
-                    else:
-                        cond(t, d, k, timeout=1800)
-    # T4 pairs of arbitrary single-keyword templates
-    pairs = tp.pair_names()
-    if quick:
-        pairs = rng.sample(pairs, 30)
-    for a, b in pairs:
-        ta, tb = tp.BY_NAME[a], tp.BY_NAME[b]
-        ds = [d for d in ta.drafts if d in tb.drafts]
-        if quick and ds:
-            ds = [rng.choice(ds)]
-        for d in ds:
-            if tp.top_keys(a, d) & tp.top_keys(b, d):
-                continue
-            ks = [k for k in ta.kinds if k in tb.kinds]
-            for k in ks[:1]:
-                cond(ta, d, SPLIT.get(k, [k])[0] if quick else k, pair=b, timeout=900 if quick else 2400)
-    return out
+    return tp.gen_conditions(__name__, "single", tier, seed)
